@@ -27,6 +27,10 @@ PROP = {
         'min scaling: every child carries the manager\'s single scaleMinQuotaEnabled flag (scaleMinQuotaManager.update is only called with it), so the '
         '"scale-disabled children first" branch is unreachable through GroupQuotaManager; on a cluster whose total was never non-zero koordinator keeps an '
         'empty total list and scales nothing at the first level - that start-up state is excluded from the scaling rule (class counter)',
+        'built-in default/system quota groups (treeBuiltin unit: manager built by NewGroupQuotaManager with small, 2^60 and production MaxInt64/5 group '
+        'maxima, pods without quota label added to / removed from these groups): by the documented treatment they are not part of the division '
+        '(their runtime is their max) and the root divides cluster total minus the requests of their assigned pods among its real children; the '
+        'first-level oracle uses that total from the harness model and the real root children only',
         'Go map iteration order inside quotaTree is not controlled; the order unit additionally calls iterationForRedistribution with explicit slice orders',
     ],
     'units': [{
@@ -39,8 +43,8 @@ PROP = {
              'env': {'VERIF_C02_EXSHARDS': '4'}, 'timeout_quick': 300, 'timeout_thorough': 600},
             {'run': 'TestVerifC02Hamilton', 'quick': 20000, 'thorough': 200000},
             {'run': 'TestVerifC02Order', 'quick': 10000, 'thorough': 100000},
-            {'run': 'TestVerifC02Tree', 'quick': 3000, 'thorough': 35000},
-            {'run': 'TestVerifC02TreeBuiltin', 'quick': 3000, 'thorough': 35000},
+            {'run': 'TestVerifC02Tree', 'quick': 3000, 'thorough': 20000},
+            {'run': 'TestVerifC02TreeBuiltin', 'quick': 3000, 'thorough': 20000},
         ],
     }],
     'manifest': {
